@@ -43,6 +43,9 @@ def _match_one(key, want, rec):
     if key == "not_tags":
         have = set(rec.get("tags") or [])
         return not any(t in have for t in want)
+    if key == "has_cls":
+        have = set(rec.get("classes") or [])
+        return any(t in have for t in want)
     if key == "msg_contains":
         return want in (rec.get("msg") or "")
     if key == "path_contains":
